@@ -21,8 +21,9 @@ import (
 //
 // Runs the real encode/decode methods of the working tree on generated values
 // (structured + boundary + a malformed stream) and writes
-//   <outdir>/cases_codec_<k>.v   Gallina case lists (see coq/Codec/Cases.v)
-//   <outdir>/codec_meta.json     what was generated (distribution, samples, id -> description)
+//
+//	<outdir>/cases_codec_<k>.v   Gallina case lists (see coq/Codec/Cases.v)
+//	<outdir>/codec_meta.json     what was generated (distribution, samples, id -> description)
 func init() { verifCmds["codec"] = codecMain }
 
 type codecGen struct {
